@@ -169,17 +169,17 @@ Proof.
     destruct (log_first_last _ true l) as [f la].
     set (nmn := qpow b (f * 2 ^ l)). set (nmx := qpow b (la * 2 ^ l)).
     intros [= <- <-]. split.
-    + destruct (f64_pos_ok nmx && Qleb (- mn) nmx) eqn:G; [|lra].
+    + destruct (log_end_ok b (2 ^ l) la nmx && Qleb (- mn) nmx) eqn:G; [|lra].
       apply andb_true_iff in G. destruct G as [_ G]. gb_bool. lra.
-    + destruct (f64_pos_ok nmn && Qleb nmn (- mx)) eqn:G; [|lra].
+    + destruct (log_end_ok b (2 ^ l) f nmn && Qleb nmn (- mx)) eqn:G; [|lra].
       apply andb_true_iff in G. destruct G as [_ G]. gb_bool. lra.
   - destruct (find_level o _ 0) as [l| |]; [| intros [= <- <-]; split; lra | intros [= <- <-]; split; lra].
     destruct (log_first_last _ true l) as [f la].
     set (nmn := qpow b (f * 2 ^ l)). set (nmx := qpow b (la * 2 ^ l)).
     intros [= <- <-]. split.
-    + destruct (f64_pos_ok nmn && Qleb nmn mn) eqn:G; [|lra].
+    + destruct (log_end_ok b (2 ^ l) f nmn && Qleb nmn mn) eqn:G; [|lra].
       apply andb_true_iff in G. destruct G as [_ G]. gb_bool. lra.
-    + destruct (f64_pos_ok nmx && Qleb mx nmx) eqn:G; [|lra].
+    + destruct (log_end_ok b (2 ^ l) la nmx && Qleb mx nmx) eqn:G; [|lra].
       apply andb_true_iff in G. destruct G as [_ G]. gb_bool. lra.
 Qed.
 
@@ -196,8 +196,10 @@ Proof.
   destruct (log_first_last _ true l) as [f la].
   set (nmn := qpow b (f * 2 ^ l)). set (nmx := qpow b (la * 2 ^ l)).
   intros [= <- <-]. split.
-  - destruct (f64_pos_ok nmn && Qleb nmn mn) eqn:G; [|left; reflexivity].
-    apply andb_true_iff in G. destruct G as [G _]. right. exists (f * 2 ^ l). split; [reflexivity | exact G].
-  - destruct (f64_pos_ok nmx && Qleb mx nmx) eqn:G; [|left; reflexivity].
-    apply andb_true_iff in G. destruct G as [G _]. right. exists (la * 2 ^ l). split; [reflexivity | exact G].
+  - destruct (log_end_ok b (2 ^ l) f nmn && Qleb nmn mn) eqn:G; [|left; reflexivity].
+    apply andb_true_iff in G. destruct G as [G _]. unfold log_end_ok in G. apply andb_true_iff in G. destruct G as [_ G].
+    right. exists (f * 2 ^ l). split; [reflexivity | exact G].
+  - destruct (log_end_ok b (2 ^ l) la nmx && Qleb mx nmx) eqn:G; [|left; reflexivity].
+    apply andb_true_iff in G. destruct G as [G _]. unfold log_end_ok in G. apply andb_true_iff in G. destruct G as [_ G].
+    right. exists (la * 2 ^ l). split; [reflexivity | exact G].
 Qed.
